@@ -479,3 +479,28 @@ for _k, _nm in ((0, "entry"), (1, "exit")):
             }),
         },
     )
+
+
+# ---- _makeCursiveStatements#summary: the same facts WITHOUT the ghost (usable by callers) -----------------------------------------------------
+_ANY_SIDE = "(" + _present("glyphs[a]", "entry") + " or " + _present("glyphs[a]", "exit") + ")"
+contract(
+    MCS,
+    name="summary",
+    **MCS_COMMON,
+    ensures={
+        "record-kinds": "all(result[k].kind == 'CursivePosStatement' and result[k].glyphclass.kind == 'GlyphName' for k in range(len(result)))",
+        "record-glyph-is-a-given-glyph-with-a-side": "all(any(result[k].glyphclass.glyph == glyphs[a].name and " + _ANY_SIDE + " for a in range(len(glyphs))) for k in range(len(result)))",
+        "every-given-glyph-with-a-side-has-a-record": "all(implies(" + _ANY_SIDE + ", any(result[k].glyphclass.glyph == glyphs[a].name for k in range(len(result)))) for a in range(len(glyphs)))",
+        "empty-iff-no-glyph-has-a-side": "iff(len(result) == 0, not any(" + _ANY_SIDE + " for a in range(len(glyphs))))",
+        "records-allocated": "all(allocated(result[k]) for k in range(len(result)))",
+    },
+    canaries={"never-empty": "len(result) > 0"},
+    loops={
+        MCS_LOOP1: Loop(index="i", invariants={
+            **_INV1,
+            "side": f"all(" + _ANY_SIDE.replace("glyphs[a]", "glyphs[src[p]]") + f" for p in range(len({_KS})))",
+            "complete": "all(implies(" + _ANY_SIDE + ", any(src[p] == a for p in range(len(src)))) for a in range(i))",
+        }),
+        MCS_LOOP2: Loop(index="t", seq="KK", invariants={**_INV2, "len1": _INV1["len"]}),
+    },
+)
